@@ -39,30 +39,100 @@ def eq_reads(cls, tree_classes):
         raise Untranslatable(f"{cls.__name__}.__eq__ source not found")
     self_name = f.args.args[0].arg
     other_name = f.args.args[1].arg
-    # every attribute read on self must sit in a direct `self.a == other.a` comparison: a helper call
-    # or any other operator changes what equality means and is not something the model expresses
-    par = {}
+    methods = {n.name: n for n in node.body if isinstance(n, ast.FunctionDef)}
+
+    def attr_of(e, who):
+        return e.attr if isinstance(e, ast.Attribute) and isinstance(e.value, ast.Name) and e.value.id == who else None
+
+    def key_attrs(call, who):
+        """self._key() where _key returns a tuple of attributes of self -> those attributes"""
+        if not (isinstance(call, ast.Call) and isinstance(call.func, ast.Attribute) and isinstance(call.func.value, ast.Name)
+                and call.func.value.id == who and not call.args and not call.keywords):
+            return None
+        m = methods.get(call.func.attr)
+        if m is None or len(m.args.args) != 1:
+            return None
+        body = [st for st in m.body if not (isinstance(st, ast.Expr) and isinstance(st.value, ast.Constant))]
+        if len(body) != 1 or not isinstance(body[0], ast.Return) or not isinstance(body[0].value, ast.Tuple):
+            return None
+        me = m.args.args[0].arg
+        out = [attr_of(e, me) for e in body[0].value.elts]
+        return out if all(out) else None
+
+    reads, len_ok, zipped, accepted = [], set(), set(), []
+
+    def conjunct(e):
+        """one conjunct of the equality: which attributes it compares (pairwise, self.a against other.a), or Untranslatable"""
+        if isinstance(e, ast.BoolOp) and isinstance(e.op, ast.And):
+            for v in e.values:
+                conjunct(v)
+            return
+        if isinstance(e, ast.Constant) and isinstance(e.value, bool):
+            return
+        if isinstance(e, ast.Call) and isinstance(e.func, ast.Name) and e.func.id == "isinstance":
+            return
+        if isinstance(e, ast.Compare) and len(e.ops) == 1 and isinstance(e.ops[0], ast.Eq):
+            l, r = e.left, e.comparators[0]
+            la, ra = attr_of(l, self_name), attr_of(r, other_name)
+            if la and la == ra:                                            # self.a == other.a
+                reads.append(la); accepted.append(e); return
+            if isinstance(l, ast.Tuple) and isinstance(r, ast.Tuple) and len(l.elts) == len(r.elts):   # (self.a, self.b) == (other.a, other.b)
+                ls, rs = [attr_of(x, self_name) for x in l.elts], [attr_of(x, other_name) for x in r.elts]
+                if all(ls) and ls == rs:
+                    reads.extend(ls); accepted.append(e); return
+            ka, kb = key_attrs(l, self_name), key_attrs(r, other_name)   # self._key() == other._key()
+            if ka and ka == kb and isinstance(l, ast.Call) and isinstance(r, ast.Call) and l.func.attr == r.func.attr:
+                reads.extend(ka); accepted.append(e); return
+            if (isinstance(l, ast.Call) and isinstance(r, ast.Call) and ast.unparse(l.func) == "len" and ast.unparse(r.func) == "len"
+                    and len(l.args) == 1 and len(r.args) == 1 and attr_of(l.args[0], self_name) and attr_of(l.args[0], self_name) == attr_of(r.args[0], other_name)):
+                len_ok.add(attr_of(l.args[0], self_name)); accepted.append(e); return           # len(self.xs) == len(other.xs)
+        if (isinstance(e, ast.Call) and isinstance(e.func, ast.Name) and e.func.id == "all" and len(e.args) == 1 and isinstance(e.args[0], ast.GeneratorExp)
+                and len(e.args[0].generators) == 1 and not e.args[0].generators[0].ifs):
+            g = e.args[0].generators[0]
+            z = g.iter
+            if (isinstance(z, ast.Call) and ast.unparse(z.func) == "zip" and len(z.args) == 2 and isinstance(g.target, ast.Tuple) and len(g.target.elts) == 2
+                    and all(isinstance(t, ast.Name) for t in g.target.elts)):
+                xa, xb = attr_of(z.args[0], self_name), attr_of(z.args[1], other_name)
+                m, t = g.target.elts[0].id, g.target.elts[1].id
+                elt = ast.unparse(e.args[0].elt)
+                if xa and xa == xb and elt in (f"{m} == {t}", f"{m} is {t} or {m} == {t}"):
+                    zipped.add(xa); reads.append(xa); accepted.append(e); return       # element-wise equality (needs the length check too)
+        raise Untranslatable(f"{cls.__name__}.__eq__: conjunct `{ast.unparse(e)[:70]}` is not a pairwise comparison of the same attribute of self and other")
+
+    def walk_body(stmts):
+        for st in stmts:
+            if isinstance(st, ast.Expr) and isinstance(st.value, ast.Constant):
+                continue
+            if isinstance(st, ast.Return):
+                if st.value is not None:
+                    conjunct(st.value)
+                continue
+            if isinstance(st, ast.If):
+                t = st.test
+                if isinstance(t, ast.UnaryOp) and isinstance(t.op, ast.Not):
+                    t = t.operand
+                if not (isinstance(t, ast.Call) and isinstance(t.func, ast.Name) and t.func.id == "isinstance"):
+                    raise Untranslatable(f"{cls.__name__}.__eq__: `if` on something other than isinstance(other, ...)")
+                walk_body(st.body)
+                walk_body(st.orelse)
+                continue
+            raise Untranslatable(f"{cls.__name__}.__eq__: statement {type(st).__name__}")
+
+    walk_body(f.body)
+    if zipped - len_ok:
+        raise Untranslatable(f"{cls.__name__}.__eq__ compares {sorted(zipped - len_ok)} element-wise over zip() without comparing the lengths")
+    # every attribute read on self must sit inside one of the accepted comparisons
+    inside = set()
+    for e in accepted:
+        for n in ast.walk(e):
+            inside.add(id(n))
     for n in ast.walk(f):
-        for c in ast.iter_child_nodes(n):
-            par[c] = n
-    for n in ast.walk(f):
-        if isinstance(n, ast.Attribute) and isinstance(n.value, ast.Name) and n.value.id == self_name:
-            p = par.get(n)
-            ok = (isinstance(p, ast.Compare) and len(p.ops) == 1 and isinstance(p.ops[0], ast.Eq) and p.left is n
-                  and isinstance(p.comparators[0], ast.Attribute) and isinstance(p.comparators[0].value, ast.Name)
-                  and p.comparators[0].value.id == other_name and p.comparators[0].attr == n.attr)
-            if not ok:
-                raise Untranslatable(f"{cls.__name__}.__eq__ uses self.{n.attr} outside a direct `self.{n.attr} == other.{n.attr}` comparison")
-    reads = []
-    for n in ast.walk(f):
-        if isinstance(n, ast.Attribute) and isinstance(n.value, ast.Name) and n.value.id == self_name:
-            if n.attr not in reads:
-                reads.append((n.lineno, n.col_offset, n.attr))
-    reads.sort()
+        if isinstance(n, ast.Attribute) and isinstance(n.value, ast.Name) and n.value.id == self_name and id(n) not in inside:
+            raise Untranslatable(f"{cls.__name__}.__eq__ uses self.{n.attr} outside a pairwise comparison with other.{n.attr}")
     out = []
-    for _, _, a in reads:
-        if a not in out:
-            out.append(a)
+    for a_ in reads:
+        if a_ not in out:
+            out.append(a_)
     return out
 
 
